@@ -440,16 +440,21 @@ def exitW (pub : XPub) (w : XW) : XW × XO :=
   | (w', some e) => if e.caught then (w', some (.procExit 70)) else (w', some e)
   | (w', none) => if w.bus.state = .starting then (w', some (.procExit 70)) else (w', none)
 
+/-- The handlers of `start()`'s `try`: `KeyboardInterrupt`/`SystemExit` (and the process being
+    gone) pass; an `Exception` is logged, the bus is shut down (`exit()`, whose own `Exception`s
+    are swallowed), and the original error is re-raised. -/
+def startFailW (pub : XPub) (w3 : XW) (e : XExc) : XW × XO :=
+  if !e.caught then (w3, some e) else
+  xbind (pub w3 .log) fun w4 =>
+  match exitW pub w4 with
+  | (w5, none) => (w5, some e)
+  | (w5, some e') => if e'.caught then (w5, some e) else (w5, some e')
+
 def startW (pub : XPub) (w : XW) : XW × XO :=
   xbind (pub (setSt { w with atexit := w.atexit + 1 } .starting) .log) fun w1 =>
   match (xbind (pub w1 .start) fun w2 => pub (setSt w2 .started) .log) with
   | (w3, none) => (w3, none)
-  | (w3, some e) =>
-    if !e.caught then (w3, some e) else
-    xbind (pub w3 .log) fun w4 =>
-    match exitW pub w4 with
-    | (w5, none) => (w5, some e)
-    | (w5, some e') => if e'.caught then (w5, some e) else (w5, some e')
+  | (w3, some e) => startFailW pub w3 e
 
 def restartW (pub : XPub) (w : XW) : XW × XO :=
   exitW pub { w with bus := { w.bus with execv := true } }
